@@ -65,4 +65,8 @@ theorem src_member_model :
 
 theorem src_no_literal_dimension_names : Gen.literalDimUses = [] := by decide
 
+/-- source obligation: a member's scores are the projection of the ORIGINAL preprocessed samples on the member's components -/
+theorem src_member_scores_project_originals :
+    Gen.bootstrapMemberScoresExpr = ["bst_model.transform(input_data, normalized=False)"] := by decide
+
 end C20
